@@ -79,6 +79,9 @@ func tmpDir() string {
 // Timeouts counts the children that did not finish in time and were re-run.
 var Timeouts int
 
+// LastTimeoutDump is the stderr (goroutine dump after SIGQUIT) of the last child that timed out.
+var LastTimeoutDump string
+
 // Run executes one job in a fresh child process. A child that does not finish
 // in time says nothing about the property: it is re-run (twice at most).
 func Run(job *kjob.Job, o RunOpts) (*RunResult, error) {
@@ -90,6 +93,7 @@ func Run(job *kjob.Job, o RunOpts) (*RunResult, error) {
 			return r, err
 		}
 		Timeouts++
+		LastTimeoutDump = r.Stderr
 	}
 	return r, err
 }
